@@ -18,6 +18,10 @@ extern void* verif_point_ret(int site, void* addr); /* runs the point, returns a
  * `p` is evaluated exactly once, as the argument of verif_point_ret. */
 #define VERIF_PTR(n, p) ((__typeof__(p))verif_point_ret((n), (void*)(p)))
 #define VERIF_AT(p) ((__typeof__(p))verif_point_ret(-__LINE__, (void*)(p)))
+/* non-atomic read-modify-write of shared memory: operate on a shadow copy, commit after a second interference point */
+extern void* verif_rmw_begin(int site, void* addr, unsigned long size);
+extern void verif_rmw_commit(int site);
+#define VERIF_RMW(n, p) ((__typeof__(p))verif_rmw_begin((n), (void*)(p), sizeof(*(p))))
 
 #undef atomic_load_explicit
 #define atomic_load_explicit(p, mo) __atomic_load_n(VERIF_AT(p), (mo))
@@ -59,5 +63,36 @@ extern void* verif_point_ret(int site, void* addr); /* runs the point, returns a
      __atomic_compare_exchange_n(VERIF_AT(p), &so, (n), 0, __ATOMIC_SEQ_CST, __ATOMIC_SEQ_CST); })
 #define __sync_add_and_fetch(p, v) __atomic_add_fetch(VERIF_AT(p), (v), __ATOMIC_SEQ_CST)
 #define __sync_sub_and_fetch(p, v) __atomic_sub_fetch(VERIF_AT(p), (v), __ATOMIC_SEQ_CST)
+
+/* operations the pinned tree does not use but an edit might introduce */
+#undef atomic_load
+#define atomic_load(p) __atomic_load_n(VERIF_AT(p), __ATOMIC_SEQ_CST)
+#undef atomic_store
+#define atomic_store(p, v) __atomic_store_n(VERIF_AT(p), (v), __ATOMIC_SEQ_CST)
+#undef atomic_fetch_sub_explicit
+#define atomic_fetch_sub_explicit(p, v, mo) __atomic_fetch_sub(VERIF_AT(p), (v), (mo))
+#undef atomic_fetch_or_explicit
+#define atomic_fetch_or_explicit(p, v, mo) __atomic_fetch_or(VERIF_AT(p), (v), (mo))
+#undef atomic_fetch_and_explicit
+#define atomic_fetch_and_explicit(p, v, mo) __atomic_fetch_and(VERIF_AT(p), (v), (mo))
+#undef atomic_fetch_xor
+#define atomic_fetch_xor(p, v) __atomic_fetch_xor(VERIF_AT(p), (v), __ATOMIC_SEQ_CST)
+#undef atomic_fetch_xor_explicit
+#define atomic_fetch_xor_explicit(p, v, mo) __atomic_fetch_xor(VERIF_AT(p), (v), (mo))
+#define __sync_fetch_and_add(p, v) __atomic_fetch_add(VERIF_AT(p), (v), __ATOMIC_SEQ_CST)
+#define __sync_fetch_and_sub(p, v) __atomic_fetch_sub(VERIF_AT(p), (v), __ATOMIC_SEQ_CST)
+#define __sync_fetch_and_or(p, v) __atomic_fetch_or(VERIF_AT(p), (v), __ATOMIC_SEQ_CST)
+#define __sync_fetch_and_and(p, v) __atomic_fetch_and(VERIF_AT(p), (v), __ATOMIC_SEQ_CST)
+#define __sync_fetch_and_xor(p, v) __atomic_fetch_xor(VERIF_AT(p), (v), __ATOMIC_SEQ_CST)
+#define __sync_or_and_fetch(p, v) __atomic_or_fetch(VERIF_AT(p), (v), __ATOMIC_SEQ_CST)
+#define __sync_and_and_fetch(p, v) __atomic_and_fetch(VERIF_AT(p), (v), __ATOMIC_SEQ_CST)
+#define __sync_lock_test_and_set(p, v) __atomic_exchange_n(VERIF_AT(p), (v), __ATOMIC_SEQ_CST)
+#define __sync_lock_release(p) __atomic_store_n(VERIF_AT(p), 0, __ATOMIC_SEQ_CST)
+#define __sync_val_compare_and_swap(p, o, n) VERIF_VCAS_(p, o, n, VERIF_CAT(verif_so_, __COUNTER__))
+#define VERIF_VCAS_(p, o, n, so) \
+  ({ __typeof__(*(p)) so = (o); \
+     __atomic_compare_exchange_n(VERIF_AT(p), &so, (n), 0, __ATOMIC_SEQ_CST, __ATOMIC_SEQ_CST); so; })
+#define __sync_synchronize() __atomic_thread_fence(__ATOMIC_SEQ_CST)
+#define atomic_thread_fence(mo) __atomic_thread_fence(mo)
 
 #endif
